@@ -1004,6 +1004,125 @@ pub fn run_c05(cfg: &Cfg, out: &mut Out) -> String {
             }
         }
     }
+    // move stream: a tree with ONE display:none node H (below visible containers only) is laid out; a visible, laid-out subtree M outside
+    // H is detached with remove_child and attached directly below H (add_child / insert_child_at_index / set_children); laid out again:
+    // clause (i) on the layouts the long-lived tree now reports — the moved subtree must come out all-zero
+    // (seeded C05-6: add_child below a display:none parent no longer dirtied it, the moved subtree kept its old layout).
+    // H has no hidden ancestor and M goes directly below H: below a *descendant* of H, mark_dirty stops at that descendant's empty cache
+    // (known finding c01-attach-under-clean-hidden, C01/C17), which is not what this stream asks about.
+    let base2 = base + nt;
+    let nm = cfg.n(1500, 30_000);
+    for i in 0..nm {
+        let ci = base2 + i;
+        if !cfg.wants(ci) {
+            continue;
+        }
+        let mut r = Rng::for_case(cfg.seed, ci);
+        out.begin_case(ci, "moved-under-hidden");
+        let mut a = gen_tree_min(&mut r, &gc, 4);
+        fn unhide2(t: &mut TreeDesc, r: &mut Rng) {
+            if t.style.display == Display::None {
+                t.style.display = *r.pick(&[Display::Block, Display::Flex, Display::Grid]);
+            }
+            for c in &mut t.children {
+                unhide2(c, r);
+            }
+        }
+        unhide2(&mut a, &mut r);
+        let avail = gen_available(&mut r);
+        let info = flatten(&a);
+        let n = info.len();
+        // H and M: non-root, neither inside the other
+        let mut pair = None;
+        for _ in 0..20 {
+            let h = 1 + r.below(n - 1);
+            let m = 1 + r.below(n - 1);
+            let inside = |x: usize, y: usize| x >= y && x < y + info[y].size;
+            if h != m && !inside(h, m) && !inside(m, h) {
+                pair = Some((h, m));
+                break;
+            }
+        }
+        let Some((h, m)) = pair else {
+            out.count("move:no-pair");
+            out.qa("panic C05 both", "ok");
+            continue;
+        };
+        node_at_mut(&mut a, h).style.display = Display::None;
+        let how = r.below(3);
+        // the expected tree: M appended to (or made the first / the only child of) H
+        fn take(t: &mut TreeDesc, target: usize, cur: &mut usize) -> Option<TreeDesc> {
+            *cur += 1;
+            let mut k = 0;
+            while k < t.children.len() {
+                if *cur == target {
+                    return Some(t.children.remove(k));
+                }
+                if let Some(x) = take(&mut t.children[k], target, cur) {
+                    return Some(x);
+                }
+                k += 1;
+            }
+            None
+        }
+        let mut a2 = a.clone();
+        let sub = take(&mut a2, m, &mut 0).expect("subtree");
+        let h2 = if m < h { h - info[m].size } else { h };
+        {
+            let hn = node_at_mut(&mut a2, h2);
+            match how {
+                0 => hn.children.push(sub),
+                1 => hn.children.insert(0, sub),
+                _ => hn.children = vec![sub],
+            }
+        }
+        let mparent = info[m].parent.unwrap();
+        let res = layout_fresh(&a, avail, false).and_then(|(mut t, root)| {
+            catch(move || {
+                let mut ids = vec![];
+                preorder_ids(&t, root, &mut ids);
+                t.remove_child(ids[mparent], ids[m]).unwrap();
+                match how {
+                    0 => {
+                        t.add_child(ids[h], ids[m]).unwrap();
+                    }
+                    1 => {
+                        t.insert_child_at_index(ids[h], 0, ids[m]).unwrap();
+                    }
+                    _ => {
+                        t.set_children(ids[h], &[ids[m]]).unwrap();
+                    }
+                }
+                t.compute_layout_with_measure(root, avail, |k, a, _id, ctx, _style| measure(k, a, ctx)).unwrap();
+                all_layouts(&t, root, true)
+            })
+        });
+        match res {
+            Ok(l2) => {
+                let hid = hidden_flags(&a2);
+                count_tree(out, &a2);
+                out.count(["move:add_child", "move:insert_child_at_index", "move:set_children"][how as usize]);
+                out.count(&format!("moved-subtree-size:{}", info[m].size.min(4)));
+                out.nontrivial();
+                let ans = if hid.len() != l2.len() { "bad node-count".to_string() } else { c05_judge(&hid, &l2, &l2, None) };
+                if ans != "ok" {
+                    out.impl_violation(format!(
+                        "sig:c05-hidden-not-zero-after-move {ans}; laid out, then node {m} (subtree of {}) detached with remove_child and attached directly below the display:none node {h} ({}), laid out again; avail {} ; tree (after the move) = {}",
+                        info[m].size,
+                        ["add_child", "insert_child_at_index", "set_children"][how as usize],
+                        avs(avail),
+                        a2.line()
+                    ));
+                }
+                obs(out, "C05", &format!("{} - 0", avs(avail)), &a2, &a2, &l2, &l2, &ans);
+            }
+            Err(m) => {
+                out.count("move:panic");
+                let _ = m;
+                out.qa("panic C05 both", "ok");
+            }
+        }
+    }
     String::new()
 }
 
